@@ -288,7 +288,7 @@ def run (q : Quirks) (ops : Ops σ) (isCss : σ → Bool) (compressed : Bool) (f
     match emitTop q ops core with
     | .error e => .error e
     | .ok st =>
-      .ok { items := if q.hashCommentDropped then writtenItems ops.isHash st.root else st.root,
+      .ok { items := writtenItems (if q.hashCommentDropped then ops.isHash else ops.isSourceMap) st.root,
             lost := st.lost }
 
 end Dest
